@@ -458,4 +458,69 @@ theorem lines_snoc (cfg : Cfg) (ops : List Op) (op : Op) (hb : Lines cfg ops) : 
 theorem lines (cfg : Cfg) (ops : List Op) : Lines cfg ops :=
   snoc_induction (P := Lines cfg) (lines_nil cfg) (fun l a h => lines_snoc cfg l a h) ops
 
+/-! ## construction context (`built=`): helpers of `TR.Props.C06.construction_context_irrelevant` -/
+
+/-- Which tokio runtime is current while the layer value and the service are constructed (the builder chain, `.build()`,
+`Layer::layer` -> `TimeLimiter::new`): the runtime the calls are made and polled on, or a second runtime entered only for the
+construction and then left idle (a start-up `block_on` that has returned) or dropped.  Header / `arrive` word `built=<word>`. -/
+inductive Built | here | otherIdle | otherDropped
+  deriving DecidableEq, Repr
+
+def Built.word : Built → String
+  | .here => "here"
+  | .otherIdle => "other-idle"
+  | .otherDropped => "other-dropped"
+
+/-- a pair under another key changes no lookup -/
+theorem kv_get_skips (kv₁ kv₂ : Kv) (a b k : String) (h : a ≠ k) :
+    Kv.get (kv₁ ++ (a, b) :: kv₂) k = Kv.get (kv₁ ++ kv₂) k := by
+  induction kv₁ with
+  | nil => simp [Kv.get, h]
+  | cons p tl ih => obtain ⟨x, y⟩ := p; simp only [List.cons_append, Kv.get, ih]
+
+/-- `parseKv` reads word by word -/
+theorem parseKv_insert (w : String) (w₁ w₂ : List String) :
+    parseKv (w₁ ++ w :: w₂) = parseKv w₁ ++ parseKv [w] ++ parseKv w₂ := by
+  have : w₁ ++ w :: w₂ = w₁ ++ [w] ++ w₂ := by simp
+  rw [this]; simp only [parseKv, List.filterMap_append]
+
+/-- an `arrive` line goes through `parseOp` (it is not a probe) -/
+theorem step_arrive (cfg : Cfg) (rd : Rd) (st : State) (ws : List String) :
+    machine.step (cfg, rd, st) ("arrive" :: ws) =
+      (match parseOp ("arrive" :: ws) with
+       | some op => ((cfg, stepR cfg (rd, st) op), (stepR cfg (rd, st) op).2.log.drop st.log.length)
+       | none => ((cfg, rd, st), [])) := by
+  simp only [machine]
+  split
+  · rename_i h; exact absurd (List.cons.inj h).1 (by decide)
+  · rename_i h; exact absurd (List.cons.inj h).1 (by decide)
+  · rfl
+
+/-- a `built=<v>` word changes neither the machine's initial state, nor the operation an `arrive` line stands for, nor the
+machine's step on it (`TR.Props.C06.construction_context_irrelevant`) -/
+theorem built_word_irrelevant :
+    (∀ (kv₁ kv₂ : Kv) (v : String), machine.init (kv₁ ++ ("built", v) :: kv₂) = machine.init (kv₁ ++ kv₂)) ∧
+    (∀ (c w v : String) (w₁ w₂ : List String), parseKv [w] = [("built", v)] →
+       parseOp ("arrive" :: c :: (w₁ ++ w :: w₂)) = parseOp ("arrive" :: c :: (w₁ ++ w₂))) ∧
+    (∀ (s : machine.σ) (c w v : String) (w₁ w₂ : List String), parseKv [w] = [("built", v)] →
+       machine.step s ("arrive" :: c :: (w₁ ++ w :: w₂)) = machine.step s ("arrive" :: c :: (w₁ ++ w₂))) := by
+  have hop : ∀ (c w v : String) (w₁ w₂ : List String), parseKv [w] = [("built", v)] →
+       parseOp ("arrive" :: c :: (w₁ ++ w :: w₂)) = parseOp ("arrive" :: c :: (w₁ ++ w₂)) := by
+    intro c w v w₁ w₂ hw
+    have e : parseKv (w₁ ++ w :: w₂) = parseKv w₁ ++ ("built", v) :: parseKv w₂ := by
+      rw [parseKv_insert, hw]; simp
+    have e' : parseKv (w₁ ++ w₂) = parseKv w₁ ++ parseKv w₂ := by simp only [parseKv, List.filterMap_append]
+    simp only [parseOp, planOf, Kv.str, e, e', kv_get_skips _ _ "built" v "timeout" (by decide),
+      kv_get_skips _ _ "built" v "inner" (by decide)]
+  refine ⟨?_, hop, ?_⟩
+  · intro kv₁ kv₂ v
+    simp only [machine, parseRd, Kv.str, Kv.nat, kv_get_skips _ _ "built" v "chain" (by decide),
+      kv_get_skips _ _ "built" v "via" (by decide), kv_get_skips _ _ "built" v "timeout" (by decide),
+      kv_get_skips _ _ "built" v "cancel" (by decide), kv_get_skips _ _ "built" v "dyn" (by decide),
+      kv_get_skips _ _ "built" v "ready" (by decide), kv_get_skips _ _ "built" v "rec" (by decide),
+      kv_get_skips _ _ "built" v "recall" (by decide)]
+  · intro s c w v w₁ w₂ hw
+    obtain ⟨cfg, rd, st⟩ := s
+    rw [step_arrive, step_arrive, hop c w v w₁ w₂ hw]
+
 end TR.TimeLimiter
